@@ -18,7 +18,7 @@ def baseVal (I : Interp) (cfg : Cfg) (a : Nat) : Nat :=
   if cfg.balZero then 0 else I.uf1 "balance_0" 256 a % 2 ^ 256
 
 /-- the valuation agrees with the start world on the initial balances, and interprets `balance_00` as the empty
-    array (the axiom `balance_of` appends for every index it reads) -/
+    array (the condition `balance_of` appends for every index it reads) -/
 structure BalHyp (I : Interp) (cfg : Cfg) (w0 : Evm.World) : Prop where
   base : ∀ a, baseVal I cfg a = w0.balanceOf a
   empty : ∀ a, I.uf1 "balance_00" 256 a % 2 ^ 256 = 0
@@ -126,6 +126,89 @@ theorem balanceOfM_ok (hs : SimpSound s) (ho : OracleSound o) (hb : BalHyp I cfg
         · rw [List.mem_singleton.1 hm, hs.evalB I _ hcw]
           simp only [B.eval, CmpOp.eval, T.eval, s3, decide_eq_true_eq]
           exact le_trans hle (le_of_eq (Nat.mod_eq_of_lt (by unfold MAX_ETH; norm_num)).symm)
+
+end
+
+/-! ### the model's transfer against the reference's -/
+
+section
+variable {I : Interp} {cfg : Cfg} {w0 : Evm.World}
+
+theorem balSem_lt (hb : BalHyp I cfg w0) : ∀ {chain : List (T × T)}, ChainWF chain → ∀ a,
+    balSem I w0 chain a < 2 ^ 256
+  | [], _, a => by
+    have := hb.base a
+    unfold baseVal at this
+    simp only [balSem, ← this]
+    split
+    · norm_num
+    · exact Nat.mod_lt _ (by norm_num)
+  | (k, v) :: rest, hc, a => by
+    obtain ⟨_, _, a3, a4⟩ := hc (k, v) (List.mem_cons_self ..)
+    simp only [balSem]
+    split
+    · have := T.eval_lt I v a3
+      rw [a4] at this; exact this
+    · exact balSem_lt hb (fun kv hm => hc kv (List.mem_cons_of_mem _ hm)) a
+
+theorem sub_eval {I : Interp} {bc fv : T} (hw : bc.width = 256) {x v : Nat} (hx : bc.eval I = x) (hv : fv.eval I = v)
+    (hle : v ≤ x) (hlt : x < 2 ^ 256) : (T.bin .sub bc fv).eval I = x - v := by
+  simp only [T.eval, BinOp.eval, hw, hx, hv]
+  have hv' : v % 2 ^ 256 = v := Nat.mod_eq_of_lt (by omega)
+  rw [hv']
+  have : x + (2 ^ 256 - v) = (x - v) + 2 ^ 256 := by omega
+  rw [this, Nat.add_mod_right]
+  exact Nat.mod_eq_of_lt (by omega)
+
+theorem add_eval {I : Interp} {bt fv : T} (hw : bt.width = 256) {x v : Nat} (hx : bt.eval I = x) (hv : fv.eval I = v) :
+    (T.bin .add bt fv).eval I = (x + v) % 2 ^ 256 := by
+  simp only [T.eval, BinOp.eval, hw, hx, hv]
+
+/-- `transfer_value` on the model's chain is `World.transfer` (or nothing, for the value 0) on the world -/
+theorem transfer_bal (hb : BalHyp I cfg w0) {w : Evm.World} {chain : List (T × T)} (hc : ChainWF chain)
+    (hbal : ∀ c, w.balanceOf c = balSem I w0 chain c) {me toK bc fv bt : T} {a t v : Nat}
+    (hme : me.eval I = a) (hto : toK.eval I = t) (hbc : bc.eval I = w.balanceOf a) (hbcw : bc.width = 256)
+    (hfv : fv.eval I = v) (hle : v ≤ w.balanceOf a) (hbtw : bt.width = 256)
+    (hbt : bt.eval I = balSem I w0 ((me, .bin .sub bc fv) :: chain) t) :
+    ∀ c, (callWorld 0xf1 w a t v).balanceOf c =
+      balSem I w0 ((toK, .bin .add bt fv) :: (me, .bin .sub bc fv) :: chain) c := by
+  have hlt : ∀ c, w.balanceOf c < 2 ^ 256 := fun c => by rw [hbal c]; exact balSem_lt hb hc c
+  have hsub := sub_eval hbcw hbc hfv hle (hlt a)
+  have hbt' : bt.eval I = if a = t then w.balanceOf a - v else w.balanceOf t := by
+    rw [hbt]; simp only [balSem, hme, hsub, ← hbal t]
+  have hadd := add_eval (I := I) hbtw hbt' hfv
+  intro c
+  simp only [balSem, hme, hto, hsub, hadd, ← hbal c]
+  unfold callWorld
+  by_cases hv0 : v = 0
+  · subst hv0
+    simp only [ne_eq, not_true_eq_false, decide_false, Bool.and_false, Bool.false_eq_true, if_false, Nat.sub_zero,
+      Nat.add_zero]
+    by_cases e1 : t = c
+    · subst e1
+      rw [if_pos rfl]
+      by_cases e2 : a = t
+      · subst e2; simp only [if_true]; exact (Nat.mod_eq_of_lt (hlt a)).symm
+      · simp only [if_neg e2]; exact (Nat.mod_eq_of_lt (hlt t)).symm
+    · rw [if_neg e1]
+      by_cases e2 : a = c
+      · subst e2; simp
+      · simp [e2]
+  · have : (decide (0xf1 = 0xf1) && decide (v ≠ 0)) = true := by simp [hv0]
+    rw [if_pos this, balanceOf_transfer]
+    by_cases e1 : t = c
+    · subst e1
+      simp only [if_true]
+      by_cases e2 : a = t
+      · subst e2; simp [Evm.W]
+      · have e2' : ¬ t = a := fun h => e2 h.symm
+        simp [e2, e2', Evm.W]
+    · have e1' : ¬ c = t := fun h => e1 h.symm
+      rw [if_neg e1, if_neg e1']
+      by_cases e2 : a = c
+      · subst e2; simp
+      · have e2' : ¬ c = a := fun h => e2 h.symm
+        simp [e2, e2']
 
 end
 
